@@ -9,7 +9,8 @@ TEXT = ('The decode loop (closure passed to thread::spawn by DecodeScheduler::st
         'must pass a sleep, make progress (a frame pushed) or leave the loop; on error the error is queued before the flag '
         'is raised; the audio side turns the flag into Stopped + silence without reading frames; the starvation gate precedes '
         'every read; producer/consumer orderings around reached_end. Bounded-time claims and interleavings are not decided.'
-        ' The frame-stepping loop of the streaming sound is left only through its own guard and takes one off the fraction per iteration.')
+        ' The frame-stepping loop of the streaming sound is left only through its own guard and takes one off the fraction per iteration.'
+        ' into_sound starts the decoder thread on every success path.')
 TECHNIQUE = 'MIR loop-cycle classification with callee summary + CFG ordering / must-pass rules'
 
 DS = 'sound::streaming::sound::decode_scheduler::DecodeScheduler::<Error>'
@@ -209,6 +210,24 @@ def run(ctx, R, tier):
                 detail='reached_end() ≺ is_empty()')
     err_ring(F, R)
     err_propagation(F, R)
+    # the decoder thread exists at all: into_sound() starts the scheduler on every success path (a streaming sound whose
+    # decoder thread is never started stays silent for ever and never reports an error)
+    isb = None
+    for b0 in F.bodies:
+        if b0.krate == 'kira' and b0.path.endswith('::into_sound') and 'StreamingSoundData' in b0.path:
+            isb = F.inlined_view(b0.path, depth=1, pred=lambda hp: 'StreamingSoundData' in hp)
+    if R.check(isb is not None, 'B.C10.start', 'anchor', 'StreamingSoundData::into_sound not found'):
+        starts = set(x for x, t in isb.calls() if (callee_path(t) or '').endswith('DecodeScheduler::<Error>::start'))
+        okp = bool(starts)
+        for p in explore(isb):
+            if p.end != 'return':
+                continue
+            r = str(p.ret)
+            if 'Result::Ok' in r or '::Ok(' in r:
+                if not (set(p.blocks) & starts):
+                    okp = False
+        R.check(okp, 'B.C10.start', 'into_sound', 'StreamingSoundData::into_sound can return Ok without starting the decoder thread',
+                detail='split()? ; scheduler.start() ; Ok(..)', where=isb.file)
     # producer order: push before reached_end.store(true)
     pushes = [x for x, t in runb.calls() if (callee_path(t) or '').endswith('rtrb::Producer::<T>::push')]
     stores = [x for x, t in runb.calls() if (callee_path(t) or '').endswith('::store') and 'reached_end' in describe(runb, t['args'][0])]
